@@ -400,6 +400,28 @@ func runC03(c *fw.Ctx) {
 				}
 			}
 		}
+		// pass 5b: cells larger than any message or buffer size a server is likely to split at (1.2 MiB and 3 MiB values,
+		// next to ordinary cells): the chunk stream must still be well formed and reassemble to the value
+		item++
+		if c.Mine(item) {
+			mk := func(n int, tag byte) string {
+				b := make([]byte, n)
+				for i := range b {
+					b[i] = tag + byte(i%29)
+				}
+				return string(b)
+			}
+			setup := append(setupT(),
+				bt.Op{Kind: "MutateRow", Table: tblT, Key: []byte("a"), Muts: []bt.Mut{mset("f", "small", 1000, "s")}},
+				bt.Op{Kind: "MutateRow", Table: tblT, Key: []byte("b"), Muts: []bt.Mut{mset("f", "big", 2000, mk(1_200_000, 'A')), mset("f", "big", 1000, mk(1_048_577, 'a')), mset("g", "x", 1000, "after")}},
+				bt.Op{Kind: "MutateRow", Table: tblT, Key: []byte("c"), Muts: []bt.Mut{mset("g", "huge", 3000, mk(3_000_000, 'N'))}})
+			readBatch(c, "C03", eng, setup, c03Tag, func(emit func(bt.Op)) {
+				emit(bt.Op{Kind: "ReadRows", Table: tblT})
+				emit(bt.Op{Kind: "ReadRows", Table: tblT, Limit: 2})
+				emit(bt.Op{Kind: "ReadRows", Table: tblT, HasRowSet: true, Keys: [][]byte{[]byte("b")}})
+				emit(bt.Op{Kind: "ReadRows", Table: tblT, Filter: &bt.Filter{Kind: "col_limit", N: 1}})
+			})
+		}
 		// pass 6: a table longer than the batching constants of the engines and of the service (iterators and
 		// the GC pass work in batches of ~100 rows, a response message holds ~1024 chunks): full reads, limits
 		// and range bounds placed around the 100th, 200th, 1024th ... row
